@@ -2,7 +2,7 @@
    (code 1 = differs) and with the spec (code 2 = spec false on the real output). *)
 From Coq Require Import ZArith List Bool Floats.
 Import ListNotations.
-From KD Require Import C03.Model C03.Spec.
+From KD Require Import C03.Model C03.ModelFloat C03.Spec.
 Open Scope Z_scope.
 
 Definition olist_eqb (a b : option (list Z)) : bool :=
@@ -34,7 +34,8 @@ Definition spec_holds (classes : list Z) (C : Z) (w : wcase) (o : list Z) (compl
   | WClassFilter v cls =>
       list_eqb o (spec_class_filter classes (fun c => Bool.eqb (existsb (Z.eqb c) cls) v))
   | WPercent f t cf ct =>
-      contiguous o && in_range classes o
+      (* np.arange(a, b): the block [a, b), empty when b <= a *)
+      is_block (fcut cf (odflt f 0%float) n) (fcut ct (odflt t 1%float) n) o && in_range classes o
       && (if fcut cf (odflt f 0%float) n <=? fcut ct (odflt t 1%float) n then partition_ok classes o compl else true)
   | WSubsetIdx idxs =>
       in_range classes o && Nat.eqb (length o) (length idxs)
@@ -70,16 +71,64 @@ Definition spec_holds (classes : list Z) (C : Z) (w : wcase) (o : list Z) (compl
       else true
   end.
 
+(* the clauses of Proofs.pct_contract (and monotonicity where the wrapper asserts p <= q) for the
+   binary64 instance, at the sizes this case uses *)
+Definition float_cut_ok (m : Z) (ps : list (option float)) : bool :=
+  (fcut false 0 m =? 0) && (fcut true 0 m =? 0) && (fcut false 1 m =? m) && (fcut true 1 m =? m)
+  && forallb (fun op => match op with
+                        | Some p => if pct_ok p
+                                    then (0 <=? fcut false p m) && (fcut false p m <=? m)
+                                         && (0 <=? fcut true p m) && (fcut true p m <=? m)
+                                         && PrimFloat.leb 0 p && PrimFloat.leb p 1
+                                    else true
+                        | None => true
+                        end) ps.
+
+Definition float_mono_ok (m : Z) (s e : option float) : bool :=
+  let sp := odflt s 0%float in let ep := odflt e 1%float in
+  if pct_ok sp && pct_ok ep && PrimFloat.leb sp ep then fcut false sp m <=? fcut false ep m else true.
+
+Definition float_contract_ok (classes : list Z) (C : Z) (w : wcase) : bool :=
+  let n := zlen classes in
+  match w with
+  | WPercent f t _ _ => float_cut_ok n [f; t]
+  | WSubsetPercent s e => float_cut_ok n [s; e] && float_mono_ok n s e
+  | WClasswisePercent s e =>
+      forallb (fun c => let m := count_of c classes in float_cut_ok m [s; e] && float_mono_ok m s e) (class_ids C)
+  | _ => true
+  end.
+
 (* constructor calls that must not raise *)
+Definition given {A} (a b : option A) : bool := is_some a || is_some b.
+
 Definition must_succeed (classes : list Z) (C : Z) (w : wcase) : bool :=
+  let n := zlen classes in
   match w with
   | WClassFilter _ _ | WShuffle _ | WSortByClass => true
   | WOversample _ => labels_ok classes (n_classes_eff C) && negb (Nat.eqb (length classes) 0) && (0 <? C)
-  | _ => false
+  | WPercent f t _ _ => pct_ok (odflt f 0%float) && pct_ok (odflt t 1%float)
+  | WSubsetRange s e => given s e && (0 <=? odflt s 0) && (odflt s 0 <=? Z.min (odflt e n) n)
+  | WSubsetPercent s e =>
+      given s e && pct_ok (odflt s 0%float) && pct_ok (odflt e 1%float) && PrimFloat.leb (odflt s 0%float) (odflt e 1%float)
+  | WRepeat r m =>
+      (0 <? n) && match r, m with Some r', None => 0 <? r' | None, Some m' => 0 <? m' | _, _ => false end
+  | WIntraClass _ => labels_ok classes C
+  | WFewshot k _ => labels_ok classes C && (0 <=? k) && (0 <? n)
+  | WClasswiseRange s e chk =>
+      let e' := Z.min (odflt e n) n in
+      labels_ok classes (n_classes_eff C) && given s e && (0 <=? odflt s 0) && (odflt s 0 <=? e')
+      && (if chk then forallb (fun c => e' <=? count_of c classes) (class_ids C) else true)
+  | WClasswisePercent s e =>
+      labels_ok classes (n_classes_eff C) && given s e && pct_ok (odflt s 0%float) && pct_ok (odflt e 1%float)
+      && PrimFloat.leb (odflt s 0%float) (odflt e 1%float)
+  | WSubsetIdx _ => false
   end.
 
+(* 0 = impl, model and spec agree; 1 = model differs from impl; 2 = spec false on the impl's
+   output; 3 = the binary64 percent -> index map violates the contract the theorems assume *)
 Definition check (c : case_t) : nat :=
   let '(classes, C, w, out, compl) := c in
+  if negb (float_contract_ok classes C w) then 3%nat else
   match out with
   | Some o => if negb (spec_holds classes C w o compl) then 2%nat
               else if olist_eqb (run classes C w) out then 0%nat else 1%nat
